@@ -359,6 +359,10 @@ func c17Build(p *c17Prog, r *rand.Rand, variant int) (c17Case, bool) {
 			nd++
 			kind += "+decoy"
 		}
+		if strings.HasPrefix(kind, "fold-wrap") && j+1 < len(t) && t[j+1].Kind == gen.TWord && al[t[j+1].Text] != "" {
+			// (the outer value ends in a blank: the word after the run is examined, and a decoy has taken its name)
+			return c17Case{}, false
+		}
 		if r.IntN(3) == 0 && !strings.HasPrefix(kind, "fold-wrap") {
 			al["ALIAS_1"] += pick(r, []string{" ", "\t", "  "}) // a trailing blank must not matter when an operator / nothing alias-like follows
 			if j+1 < len(t) && t[j+1].Kind == gen.TWord && al[t[j+1].Text] != "" {
